@@ -10,7 +10,7 @@
 Not decided: actual content/size/digest values; compression-level behaviour.
 """
 import re
-from engine import op_place, const_int
+from engine import op_place, const_int, const_str
 from terms import TermBuilder, render
 from common import call_leaves, switch_info, arms_of, reach_from, err_assign_blocks, fmt_key
 from c01 import agg_fields
@@ -122,7 +122,7 @@ def run(f, fixture, rep, cfg, tier):
             pats = []
             for c in an[0].calls():
                 if re.search(r"<impl str>::(trim_start_matches|strip_prefix|trim_matches|trim_start|trim_left_matches|replace|trim_end_matches)$", c.decl):
-                    pats.append((c.decl.rsplit("::", 1)[-1], (c.args[1].get("k", {}).get("s") if len(c.args) > 1 and "k" in c.args[1] else render(ta.term(c.args[1])) if len(c.args) > 1 else "")))
+                    pats.append((c.decl.rsplit("::", 1)[-1], (const_str(c.args[1]) if len(c.args) > 1 and "k" in c.args[1] else render(ta.term(c.args[1])) if len(c.args) > 1 else "")))
                 elif c.local is False and "str" in c.decl and not re.search(r"(as_ref|deref|len|is_empty)$", c.decl):
                     pats.append((c.decl.rsplit("::", 1)[-1], "?"))
             allowed = {("trim_start_matches", '"./"'), ("trim_start_matches", "'/'"), ("strip_prefix", '"./"'), ("strip_prefix", "'/'"), ("strip_prefix", '"/"'), ("trim_start_matches", '"/"')}
@@ -140,7 +140,7 @@ def run(f, fixture, rep, cfg, tier):
         steps, terminal, other = count_write_kinds(it)
         rep.check(len(steps) == 1 and not other and not in_loop, "R1", "count|single-step", "FileIterator advances its position once per entry",
                   "FileIterator::next writes self.count at %d places (%d steps, %d neither step nor end-of-iteration, %d inside a loop): positions are skipped or repeated" % (len(cw), len(steps), len(other), len(in_loop)), it.span)
-        fin = [c for c in it.calls() if c.decl.endswith("payload::Reader::<R>::finish")]
+        fin = [c for x in [it] + list(f.closures_of(it)) for c in x.calls() if c.decl.endswith("payload::Reader::<R>::finish")]    # also `read_to_end(..).and_then(|_| r.finish())`
         rep.check(len(fin) == 1, "R1", "finish", "the entry is finished (padding skipped) before the next one", "FileIterator::next calls finish() %d times" % len(fin), it.span)
 
     # ---- R2 newc ----------------------------------------------------------------------------------
@@ -160,8 +160,12 @@ def run(f, fixture, rep, cfg, tier):
         if "file_checksum" in x:
             return "checksum"
         return "?" + x[:40]
+    def norm_pad(t_):
+        # `pad(n).unwrap_or_default()` appends what `if let Some(p) = pad(n) { extend(p) }` appends (nothing when pad is None)
+        m_ = re.fullmatch(r"std::option::Option::<T>::unwrap_or_default\((rpm::payload::pad\(.*\))\)", t_)
+        return m_.group(1) + "<Some>.0" if m_ else t_
     for c in ext:
-        t = render(th.term(c.args[1]))
+        t = norm_pad(render(th.term(c.args[1])))
         m = re.search(r"new_lower_hex\((.*)\)\}\)\)\)$", t)
         # `for field in [a, b, ...] { header.extend(format!("{:08x}", field)) }`: one emission per array element, in order
         ma = re.fullmatch(r"std::iter::Iterator::next\(array\{(.*)\}\)<Some>\.0", m.group(1)) if m else None
@@ -262,7 +266,7 @@ def run(f, fixture, rep, cfg, tier):
     ts = TermBuilder(sh)
     seq = []
     for c in dom_sorted(sh, [c for c in sh.calls() if (c.decl == "std::iter::Extend::extend" or c.decl.endswith("Vec::<T, A>::extend_from_slice"))]):
-        t = render(ts.term(c.args[1]))
+        t = norm_pad(render(ts.term(c.args[1])))
         seq.append("magic:07070X" if t == 'b"07070X"' else ("index" if "new_lower_hex(file_index)" in t else ("pad14" if t == "rpm::payload::pad(14_usize)<Some>.0" else "?" + t[:50])))
     rep.check(seq == ["magic:07070X", "index", "pad14"], "R3", "writer|stripped-header", "stripped header = magic, 8 hex index, padding of 14 to 4", "stripped header writer emits %s" % seq, sh.span)
     rep.check("14_usize" in pads, "R3", "reader|stripped-header-pad", "the reader skips the stripped header's padding", "the reader does not skip pad(14) after a stripped header (pads: %s)" % [p[:40] for p in pads], rd.span)
@@ -273,8 +277,27 @@ def run(f, fixture, rep, cfg, tier):
     if rep.check(len(sc) == 1, "R3", "builder|stripped-call", "the builder has one large-file branch", "stripped_cpio_header is called %d times" % len(sc), pd.span):
         region = {x for x in reach_from(pd, sc[0].bb) if pd.dominates(sc[0].bb, x)}
         was = dom_sorted(pd, [c for c in pd.calls() if c.bb in region and c.decl == "std::io::Write::write_all" and render(tp.term(c.args[0])).startswith("rpm::headers::types::Sha256Writer")])
-        ws = [render(tp.term(c.args[1])) for c in was][:3]
-        ok = len(ws) == 3 and ws[0].startswith("rpm::payload::stripped_cpio_header(") and ws[1].endswith(".content") and re.fullmatch(r"rpm::payload::pad\((?:std::vec::Vec::<T, A>|core::slice::<impl \[T\]>)::len\(.*\.content\)\)<Some>\.0", ws[2]) is not None
+        wts = []
+        for c in was:
+            t_ = tp.term(c.args[1])
+            # `for chunk in [a, b, c] { w.write_all(chunk)? }`: the pieces in array order
+            x_ = t_
+            while x_[0] == "proj" or (x_[0] == "call" and re.search(r"(Iterator::next|IntoIterator::into_iter|<impl \[T\]>::iter)$", x_[1]) and x_[2]):
+                x_ = x_[1] if x_[0] == "proj" else x_[2][0]
+            if x_[0] == "agg" and x_[1] == "array" and x_ is not t_:
+                wts += list(x_[2])
+            else:
+                wts.append(t_)
+
+        def unslice(x_):
+            # `&v[..]` is v
+            while x_[0] == "call" and x_[1].endswith("ops::Index::index") and len(x_[2]) == 2 and render(x_[2][1]).startswith("std::ops::RangeFull"):
+                x_ = x_[2][0]
+            return x_
+        ws = [render(unslice(x_)) for x_ in wts][:3]
+        PADC = r"rpm::payload::pad\((?:std::vec::Vec::<T, A>|core::slice::<impl \[T\]>)::len\(.*\.content\)\)"
+        ok = len(ws) == 3 and ws[0].startswith("rpm::payload::stripped_cpio_header(") and ws[1].endswith(".content") and \
+            re.fullmatch(PADC + r"<Some>\.0|std::option::Option::<T>::unwrap_or_default\(" + PADC + r"\)", ws[2]) is not None
         rep.check(ok, "R3", "builder|stripped-entry", "large-file entry = stripped header, content, padding of content to 4", "large-file branch writes %s" % [w[:70] for w in ws], sc[0].loc())
     fin = f.one("payload::Reader::<R>::finish")
     tf = TermBuilder(fin)
@@ -394,6 +417,10 @@ def run(f, fixture, rep, cfg, tier):
                     for st in pd.stmts(x):
                         if st["k"] == "assign" and st["rv"]["r"] == "use" and "k" in st["rv"]["o"] and str(st["rv"]["o"]["k"].get("s", "")).startswith('"'):
                             lits.append(st["rv"]["o"]["k"]["s"].strip('"'))
+                        if st["k"] == "assign" and st["rv"]["r"] == "agg":       # `Some(("gzip", level.to_string()))`: the name as a tuple element
+                            for a_ in st["rv"]["ops"]:
+                                if "k" in a_ and str(const_str(a_) or "").startswith('"'):
+                                    lits.append(const_str(a_).strip('"'))
                     tt_ = pd.term(x)
                     if tt_["t"] == "call":
                         for a_ in tt_["args"]:
@@ -451,6 +478,14 @@ def run(f, fixture, rep, cfg, tier):
              and not c.decl.startswith("std::") and not re.search(r"(Read::|BufRead::|Box)", c.decl)]
     rep.check(not tuned, "R6", "codec|decoder-untuned", "decoders are used as constructed (no limits or options)",
               "decompress_stream configures a decoder with %s: payloads the matching encoder produces within its documented range may be refused" % sorted({c.decl for c in tuned}), tuned[0].loc() if tuned else ds.span)
+    # ... and an encoder is built with its codec's default frame parameters: window / dictionary / format switches change what a
+    # default-constructed decoder accepts (e.g. a zstd window above the decoder's default limit)
+    if tf2:
+        etuned = [c for c in tf2[0].calls() if re.search(r"(Encoder|encoder|Stream|LzmaOptions|MtStreamBuilder|GzBuilder)", c.decl) and not re.search(r"::new$", c.decl)
+                  and not c.decl.startswith("std::") and not re.search(r"::(multithread|include_checksum|include_contentsize)$", c.decl)]
+        rep.check(not etuned, "R6", "codec|encoder-untuned", "encoders are built with their codec's default stream parameters (level aside)",
+                  "the compressor configures an encoder with %s: the default-constructed decoder of decompress_stream may refuse such a stream" % sorted({c.decl for c in etuned}),
+                  etuned[0].loc() if etuned else tf2[0].span)
     rep.check(names_by_variant.get("None") == [] and "phi(" in comp, "R6", "codec|None|no-tag", "no compressor tag is written for uncompressed payloads", "None payloads record %s" % names_by_variant.get("None"), pd.span)
     gpc = f.one("PackageMetadata::get_payload_compressor")
     cl = f.closures_of(gpc)
@@ -470,3 +505,7 @@ def run(f, fixture, rep, cfg, tier):
     # ---- R8 what is archived is what the builder was given and digested (C08.R2: content, size and digest are set together) ----
     rep.rule("R8", "the archived bytes of a file are the bytes recorded for it (C08.R2)")
     rep.include("c08", f, fixture, cfg, tier, "R8", "file content / digest pairing in the builder", only_rules={"R2"}, floor=5)
+
+    # ---- R9 "paired with the metadata of the file of that path": the pairing is made by get_file_entries (C05.R6, C05.R8) ----
+    rep.rule("R9", "file entries pair each path with its own columns; no accessor reorders a stored list (C05.R6, C05.R8)")
+    rep.include("c05", f, fixture, cfg, tier, "R9", "file entries the iterator pairs content with", only_rules={"R6", "R8"}, floor=8)
